@@ -8,8 +8,9 @@ BACKEND = 'ninja'
 def run(ctx):
     strings = A.string_space(ctx.thorough)
     small = A.small_space()
-    positions = list(A.POSITIONS) + [A.IncludeDir()]
-    A.POS['include_dir'] = positions[-1]
+    positions = list(A.POSITIONS) + [A.IncludeDir(), A.FileInCommand()] + [A.CopyPath(m, d) for m in ('copy', 'symlink', 'hardlink') for d in (False, True)]
+    for p in positions:
+        A.POS[p.name] = p
     r = A.run_positions(ctx, BACKEND, positions, strings, small)
     if r['total'] < 1000 or r['distinct'] < 500:
         raise core.HarnessError('vacuous exploration: %r' % r)
